@@ -49,6 +49,29 @@ DONE.update({
          "cuts are reported failures; silent loss is covered by keepalive (C16); peer Close / invalid frame by C10's raw peer"),
 })
 
+
+DONE.update({
+ "C11": ("psim", "model_checking", "same explorer; field-boundary sweep plus bursts against a reference model of the bounded receive queue, all schedules within the bound",
+         "every (host length, payload length, flow id, port) boundary combination; bursts of size+2 into datagram_buffer_size 1..3 with concurrent or late reader, with and without a stream on the same connection, under every schedule within the bound; received datagrams must be exactly the ones the reference queue admitted, in order, unmodified",
+         "payload/host bytes are patterns; poll granularity"),
+ "C13": ("psim", "model_checking", "explorer-owned environment: every answer of the scripted local AsyncBufRead/AsyncWrite (data size, Pending, EOF, Err) and every raw-peer event is a choice point; bounded by environment deviations and scheduling deviations",
+         "all runs with <= e non-default local answers and <= k scheduling deviations over 5-7 peer scenarios (one-way, both ways, credit starvation, peer Finish first, peer Reset); relay prefix relations at every step, half-close propagation, exact completion result, promptness after an injected error, credit equation",
+         "local write returning Ok(0) is outside the alphabet; Pending operations eventually become ready"),
+ "C15": ("psim", "model_checking", "same explorer; every answer vector x answer order x bind buffer size, connection-end faults at every point",
+         "1..3 concurrent requests, every vector over {accept, reject, drop, never} in every (quick: selected) permutation order, bind_buffer_size 1/4/disabled, optional traffic alongside, optional opposite-direction request, optional connection end at every point; every schedule within the bound",
+         "flow ids paired through reference-decoded Bind frames"),
+ "C16": ("psim", "model_checking", "real task future on tokio's paused clock under the hand-rolled executor; exhaustive pong-delay histories per (interval, timeout) pair; equal-instant races as scheduling choices",
+         "every history of R pong delays over {0, T/2, T, T+10ms, never} with silent/prompt tail for every (I,T) in {1,2,3}x{NONE,1,2,3,5} s plus disabled; ping schedule, detection window [last_pong+T, last_pong+T+I], no false positive, no missed gap, operations resolve after the timeout",
+         "3 ms tolerance for tokio timer rounding; builder order interval then timeout"),
+ "C14": ("enum", "exploration", "bounded-exhaustive enumeration of upgrade requests x server configurations against a reference validity predicate, in-process, with a backend, and over the wire",
+         "all requests within <= 4 (quick) / 5 (thorough + complete core product) simultaneous deviations from the valid upgrade over method, path, six headers, PSK variants x {PSK on/off} x {obfs on/off}; 101 iff valid with correct accept hash; every other /ws request identical to the unknown-path response; /health,/version under obfs",
+         "HTTP/1.1 only; header values outside the variant tables not enumerated"),
+ "C17": ("enum", "exploration", "complete configuration matrix of real TLS handshakes over an in-memory duplex with harness-generated chains, plus reload histories",
+         "server cert {trusted leaf, other-CA leaf, self-signed, expired} x names x skip-verify x roots x client cert {none, client-CA, other-CA, self-signed} x server client-CA {none,set} x constructors, each followed by an echo both ways; probe client observing CertificateRequest; reload histories; client-name precedence",
+         "rustls backend only; depth-1 chains"),
+})
+DONE["C03"] = (DONE["C03"][0], DONE["C03"][1], DONE["C03"][2] + "; plus loom models of credit conservation under racing grants (m1,m3,m4,m8)", DONE["C03"][3], DONE["C03"][4])
+
 REASON_PENDING = "check not built yet (work in progress; planned engine in DESIGN.md section 3)"
 
 def main():
